@@ -299,6 +299,18 @@ type zzCluster struct {
 	primary                []byte // the transaction under test (for the foreign-resolver event)
 	startTS                uint64
 	unmodelled             bool
+	// client crash (C02): the committing client dies at its crashAt-th request (0-based), which is
+	// either never delivered or delivered but never answered; afterwards none of its requests
+	// reaches the store. Requests of peer clients are not affected and not counted.
+	peerRPCs       int
+	crashArmed     bool
+	crashAt        int
+	crashDelivered bool
+	crashed        bool
+	mainRPCs       int
+	crashCh        chan struct{}
+	never          chan struct{}
+	crashedOn      *zzRPC
 }
 
 // runForeign: another client meets one of our locks (which one is a choice) and
@@ -545,10 +557,33 @@ func (c *zzCluster) pessimisticLock(r *kvrpcpb.PessimisticLockRequest) *kvrpcpb.
 // snapshotGet: the newest committed write at or below version; a lock of
 // another transaction at or below version blocks the read, the reader's own
 // lock does not.
-func (c *zzCluster) snapshotGet(key []byte, version uint64) ([]byte, bool, *kvrpcpb.KeyError) {
+func (c *zzCluster) snapshotGet(key []byte, version uint64, ctx *kvrpcpb.Context) ([]byte, bool, *kvrpcpb.KeyError) {
 	ks := c.key(key)
+	if version > c.maxReadTS {
+		c.maxReadTS = version
+	}
 	if ks.lock != nil && ks.lock.startTS != version && ks.lock.startTS <= version && ks.lock.op != kvrpcpb.Op_PessimisticLock {
-		return nil, false, zzKeyErrLocked(ks)
+		// the reader may tell the store what it already knows about the lock's transaction (TiKV:
+		// Context.resolved_locks are ignored, Context.committed_locks are read through)
+		through, ignore := false, false
+		for _, ts := range ctx.GetCommittedLocks() {
+			through = through || ts == ks.lock.startTS
+		}
+		for _, ts := range ctx.GetResolvedLocks() {
+			ignore = ignore || ts == ks.lock.startTS
+		}
+		switch {
+		case through:
+			if ks.lock.op == kvrpcpb.Op_Put {
+				return ks.lock.value, true, nil
+			}
+			if ks.lock.op == kvrpcpb.Op_Del {
+				return nil, false, nil
+			}
+		case ignore:
+		default:
+			return nil, false, zzKeyErrLocked(ks)
+		}
 	}
 	var best *zzWrite
 	for i := range ks.writes {
@@ -619,7 +654,9 @@ func (c *zzCluster) checkSecondaryLocks(r *kvrpcpb.CheckSecondaryLocksRequest) *
 	out := &kvrpcpb.CheckSecondaryLocksResponse{}
 	for _, k := range r.Keys {
 		ks := c.key(k)
-		if ks.lock != nil && ks.lock.startTS == r.StartVersion {
+		// a pessimistic lock means the key was never prewritten: TiKV removes it and leaves a
+		// rollback record, exactly as for a missing lock
+		if ks.lock != nil && ks.lock.startTS == r.StartVersion && ks.lock.op != kvrpcpb.Op_PessimisticLock {
 			out.Locks = append(out.Locks, zzKeyErrLocked(ks).Locked)
 			continue
 		}
@@ -728,7 +765,8 @@ func (c *zzCluster) foreignResolve(primary []byte, startTS uint64) {
 // ---- client ------------------------------------------------------------------------
 
 type zzClient struct {
-	cl *zzCluster
+	cl   *zzCluster
+	peer bool // another client of the same cluster (recovery side of a crash scenario): no faults, no crash
 }
 
 func (c *zzClient) Close() error                                     { return nil }
@@ -747,7 +785,30 @@ func (c *zzClient) SendRequest(ctx context.Context, addr string, req *tikvrpc.Re
 	defer cl.mu.Unlock()
 	rpc := zzRPC{cmd: req.Type, req: req, regionID: req.Context.GetRegionId()}
 	ev := zzEvOK
-	if cl.faults > 0 && (cl.allowFaultOn == nil || cl.allowFaultOn(req.Type)) {
+	dying := false
+	if c.peer {
+		cl.peerRPCs++
+		if cl.peerRPCs > 200 {
+			zzAssert(false, "debug.peer-loop")
+		}
+	}
+	if !c.peer && cl.crashArmed {
+		if cl.crashed {
+			// a dead client sends nothing
+			cl.mu.Unlock()
+			<-cl.never
+		}
+		if cl.mainRPCs == cl.crashAt {
+			dying = true
+		}
+		cl.mainRPCs++
+	}
+	if dying {
+		ev = zzEvLostRequest
+		if cl.crashDelivered {
+			ev = zzEvLostResponse
+		}
+	} else if !c.peer && cl.faults > 0 && (cl.allowFaultOn == nil || cl.allowFaultOn(req.Type)) {
 		// the events that make sense for this request in the current store state
 		allowed := []int{zzEvOK, zzEvServerBusy, zzEvFakeEpoch}
 		if !cl.regionErrorsOnly {
@@ -787,6 +848,13 @@ func (c *zzClient) SendRequest(ctx context.Context, addr string, req *tikvrpc.Re
 	}
 	finish := func(resp *tikvrpc.Response, err error) (*tikvrpc.Response, error) {
 		cl.log = append(cl.log, rpc)
+		if dying {
+			cl.crashed = true
+			cl.crashedOn = &cl.log[len(cl.log)-1]
+			close(cl.crashCh)
+			cl.mu.Unlock()
+			<-cl.never
+		}
 		return resp, err
 	}
 	switch ev {
@@ -857,7 +925,7 @@ func (c *zzClient) SendRequest(ctx context.Context, addr string, req *tikvrpc.Re
 	case tikvrpc.CmdGet:
 		r := req.Get()
 		out := &kvrpcpb.GetResponse{}
-		v, found, kerr := cl.snapshotGet(r.Key, r.Version)
+		v, found, kerr := cl.snapshotGet(r.Key, r.Version, &req.Context)
 		if kerr != nil {
 			out.Error = kerr
 		} else if found {
@@ -870,7 +938,7 @@ func (c *zzClient) SendRequest(ctx context.Context, addr string, req *tikvrpc.Re
 		r := req.BatchGet()
 		out := &kvrpcpb.BatchGetResponse{}
 		for _, k := range r.Keys {
-			v, found, kerr := cl.snapshotGet(k, r.Version)
+			v, found, kerr := cl.snapshotGet(k, r.Version, &req.Context)
 			if kerr != nil {
 				out.Pairs = append(out.Pairs, &kvrpcpb.KvPair{Key: k, Error: kerr})
 			} else if found {
@@ -1012,6 +1080,7 @@ func (c *zzClient) SendRequest(ctx context.Context, addr string, req *tikvrpc.Re
 // ---- kvstore ------------------------------------------------------------------------------
 
 type zzStore struct {
+	pd       *zzPD
 	cache    *locate.RegionCache
 	cli      *zzClient
 	orc      *zzOracle
@@ -1071,6 +1140,7 @@ func zzNewStoreTS(splits [][]byte, faults int, symbolicTS bool) (*zzStore, *zzCl
 	s := &zzStore{ctx: context.Background()}
 	pdc := zzLayout(splits)
 	cl.regions = pdc.regions
+	s.pd = pdc
 	s.cache = locate.NewRegionCache(pdc)
 	s.cli = &zzClient{cl: cl}
 	s.orc = &zzOracle{last: 1000, step: 10}
@@ -1084,6 +1154,16 @@ func zzNewStoreTS(splits [][]byte, faults int, symbolicTS bool) (*zzStore, *zzCl
 	}
 	s.resolver = txnlock.NewLockResolver(s)
 	return s, cl
+}
+
+// zzNewPeer: another client process of the same cluster: own region cache, own lock resolver, own
+// connection (never faulted, not affected by a crash of the first client); the oracle is shared.
+func zzNewPeer(s *zzStore) *zzStore {
+	p := &zzStore{ctx: context.Background(), pd: s.pd, orc: s.orc}
+	p.cache = locate.NewRegionCache(s.pd)
+	p.cli = &zzClient{cl: s.cli.cl, peer: true}
+	p.resolver = txnlock.NewLockResolver(p)
+	return p
 }
 
 func (s *zzStore) close() {
